@@ -24,6 +24,8 @@ pub struct SinkState {
     pub failures: usize,
     /// length of `accepted` when the (first) failure was injected
     pub accepted_at_failure: Option<usize>,
+    /// length of `accepted` at the start of every call (write or flush)
+    pub call_log: Vec<usize>,
 }
 
 #[derive(Clone)]
@@ -36,6 +38,8 @@ impl Sink {
     fn should_fail(s: &mut SinkState) -> bool {
         let k = s.calls;
         s.calls += 1;
+        let l = s.accepted.len();
+        s.call_log.push(l);
         match s.fail_from {
             Some(f) if (s.fail_once && k == f) || (!s.fail_once && k >= f) => {
                 s.failures += 1;
